@@ -7,6 +7,7 @@ pub mod hgen;
 pub mod io;
 pub mod model;
 pub mod rawbam;
+pub mod reuse;
 pub mod samtext;
 pub mod spec;
 
